@@ -46,6 +46,13 @@ public:
     bool equalResets(const ComponentPtr &other) const;
 
     bool performTestWithHistory(History &history, const ComponentConstPtr &component, TestType type) const;
+
+    /**
+     * @brief Clone the component, taking the import sources of the clone and of its descendants from the given map.
+     *
+     * @sa clonedImportSource
+     */
+    ComponentPtr clone(ImportSourceMap &importSourceMap) const;
 };
 
 } // namespace libcellml
